@@ -235,7 +235,7 @@ func checkC03() fw.Check {
 			}
 			reps := 6
 			if tier == "thorough" {
-				reps = 4
+				reps = 10
 			}
 			var cases []fw.Case
 			for _, par := range []bool{true, false} {
